@@ -160,7 +160,17 @@ def add_arguments(parser: argparse.ArgumentParser) -> None:
                         help="Run benchmarks instead of tests.")
     parser.add_argument('--logbase', default='testlog',
                         help="Base name for log file.")
-    parser.add_argument('-j', '--num-processes', default=determine_worker_count(['MESON_TESTTHREADS']), type=int,
+
+    def positive_int(arg: str) -> int:
+        try:
+            value = int(arg)
+        except ValueError:
+            raise argparse.ArgumentTypeError('must be a positive integer')
+        if value <= 0:
+            raise argparse.ArgumentTypeError('must be a positive integer')
+        return value
+
+    parser.add_argument('-j', '--num-processes', default=determine_worker_count(['MESON_TESTTHREADS']), type=positive_int,
                         help='How many parallel processes to use.')
     parser.add_argument('-v', '--verbose', default=False, action='store_true',
                         help='Do not redirect stdout and stderr')
